@@ -248,6 +248,7 @@ int __wrap_pthread_cond_signal(pthread_cond_t* c)
     int const me = self; int w[MAXT], nw = 0;
     for (int t = 0; t < nT; t++) if (T[t].st == T_BLK_COND && T[t].waitobj == c) w[nw++] = t;
     if (nw) { int const t = w[rnd() % (uint64_t)nw]; T[t].st = T_RUNNABLE; }     /* "at least one" waiter: any one of them */
+    if (nw >= 2) g_res.signals_with_several_waiters++;
     ev(me, 6, obj(c)->id);
     yield_point(me);
     return 0;
@@ -256,7 +257,7 @@ int __wrap_pthread_cond_broadcast(pthread_cond_t* c)
 {
     if (!sched_active()) return __real_pthread_cond_broadcast(c);
     int const me = self;
-    for (int t = 0; t < nT; t++) if (T[t].st == T_BLK_COND && T[t].waitobj == c) T[t].st = T_RUNNABLE;
+    { int nw = 0; for (int t = 0; t < nT; t++) if (T[t].st == T_BLK_COND && T[t].waitobj == c) { T[t].st = T_RUNNABLE; nw++; } if (nw >= 2) g_res.broadcasts_with_several_waiters++; }
     ev(me, 7, obj(c)->id);
     yield_point(me);
     return 0;
